@@ -155,6 +155,11 @@ def build_inputs(fl, tier):
     inputs = []   # dict(text, origin, kind, desc)
     for f in sorted(glob.glob(os.path.join(C.CORPUS, "C07", "*.capy"))):
         inputs.append({"text": open(f, encoding="utf-8").read(), "origin": "corpus/" + os.path.basename(f), "kind": "corpus"})
+    # every kind of non-const operand in every const position (+ constant controls): always, both tiers
+    for operand, pos, is_const, src in M.const_matrix():
+        inputs.append({"text": src, "origin": "const-matrix/%s@%s" % (operand, pos),
+                       "kind": "const-control" if is_const else "const-matrix", "shape": "%s@%s" % (operand, pos),
+                       "desc": "%s operand `%s` in position %s" % ("constant" if is_const else "NON-constant", operand, pos)})
     n_gen = 260 if tier == "quick" else 2500
     n_snip = 220 if tier == "quick" else 1200
     n_sem = 120 if tier == "quick" else 1500
@@ -233,7 +238,13 @@ def run(tier, seed):
                     hist_err[k] = hist_err.get(k, 0) + 1
             if f and (int(f.get("errs", 0)) > 0 or f.get("cg", "").startswith("ok:")):
                 nontrivial += 1
-            if classes[i] is None and vd not in ("0", "?"):
+            if f and f.get("errs") == "0" and f.get("unsafe") == "1":
+                # no diagnostic although something is flagged unsafe: whatever codegen then does (a panic at a
+                # site that may even be a known finding) must not hide this -- it is its own class
+                shape = it.get("shape") or it["kind"]
+                classes[i] = "noerr-but-unsafe:%s" % shape
+                it["detail"] = "no error reported, any_were_unsafe_to_compile = true, codegen: %s" % f.get("cg", "")[:120]
+            elif classes[i] is None and vd not in ("0", "?"):
                 cg = f.get("cg", "")
                 if vd in ("1", "3"):
                     if cg.startswith("panic:"):
@@ -243,7 +254,7 @@ def run(tier, seed):
                     else:
                         classes[i] = "noerr-codegen-failed:" + cg[:60]
                 elif vd == "2":
-                    classes[i] = "noerr-but-unsafe"
+                    classes[i] = "noerr-but-unsafe:%s" % (it.get("shape") or it["kind"])
                 elif vd == "4":
                     ks = sorted(k for k in (f.get("kinds") or "").split(",") if k and not k.startswith("tynx."))
                     classes[i] = "error-but-safe:" + "+".join(ks[:3])
